@@ -1,0 +1,28 @@
+//go:build verif
+
+package uacp
+
+import "sync/atomic"
+
+// verifHook is the scheduling-point / event callback of the verification
+// harness (/verif). It is nil unless a harness installs one.
+var verifHook atomic.Pointer[func(name string, args ...interface{})]
+
+// VerifSetHook installs (or, with nil, removes) the callback invoked at every
+// verifPoint of this package.
+func VerifSetHook(f func(name string, args ...interface{})) {
+	if f == nil {
+		verifHook.Store(nil)
+		return
+	}
+	verifHook.Store(&f)
+}
+
+// verifPoint reports that execution reached the named point. The callback may
+// block to force an interleaving. Without the verif build tag it is an empty
+// function (verif_point_off.go).
+func verifPoint(name string, args ...interface{}) {
+	if f := verifHook.Load(); f != nil {
+		(*f)(name, args...)
+	}
+}
